@@ -58,7 +58,7 @@ ASSUMPTIONS = [
     "measure-directly: both sides are asked for the same named basis (post-processing is only defined then)",
 ]
 PROBES = ["bell:PHI_PLUS", "bell:PSI_PLUS", "bell:PSI_MINUS", "bell:PHI_MINUS", "variant:recv_keep", "variant:recv_keep_info",
-          "variant:recv_keep_post", "variant:recv_rsp", "variant:recv_rsp_info", "variant:recv_measure", "measure-per-pair-bell-states", "measure-receiver-told-basis", "keep-single-pair-sequential-flag", "pairs>=2", "other-live-qubits", "nv",
+          "variant:recv_keep_post", "variant:recv_rsp", "variant:recv_rsp_info", "variant:recv_measure", "measure-per-pair-bell-states", "measure-receiver-told-basis", "keep-single-pair-sequential-flag", "post-routine-non-sequential", "pairs>=2", "other-live-qubits", "nv",
           "expect-off", "correction-due-on-pair>=1", "basis-non-Z"]
 
 VARIANTS = ["recv_keep", "recv_keep_info", "recv_keep_post", "recv_rsp", "recv_measure", "recv_rsp_info"]
@@ -214,7 +214,11 @@ def run(ch: Choices, opts: Dict[str, Any]) -> Dict[str, Any]:
                     if state["post_basis"] == "X":
                         q.H()
                     q.measure(future=outcomes.get_future_index(pair))
-                sock.recv_keep(number=n_pairs, post_routine=post, sequential=True, expect_phi_plus=expect)
+                # the post routine may also be given without the sequential mode (every pair then has its own ID)
+                post_seq = calm or hw == "nv" or ch.flag(2, 3, "postseq")
+                if not post_seq:
+                    bump(probes, "post-routine-non-sequential")
+                sock.recv_keep(number=n_pairs, post_routine=post, sequential=post_seq, expect_phi_plus=expect)
                 state["outcomes"] = outcomes
             elif variant == "recv_rsp":
                 state["rqs"] = sock.recv_rsp(number=n_pairs, expect_phi_plus=expect)
